@@ -255,4 +255,13 @@ def createInitialAllocation (sqrt : α → α) (εA : α) (includeZero : Bool) (
   | .error e => .error e
   | .ok a => initialAllocation sqrt εA includeZero mods a.cells
 
+/-- `Allocation(descriptors).initial_allocation(netlist, include_area_zero)` for descriptors
+    `(rectangle, {}, depth)` — the same path entered one level below `create_initial_allocation`
+    (cells may then carry a refinement depth and need not be flagged yet). -/
+def allocationThenInitial (sqrt : α → α) (εA : α) (includeZero : Bool) (mods : List (Module α))
+    (cells : List (Rect α × Nat)) : Except IErr (Allocation α) :=
+  match mkAllocation εA (cells.map fun p => (⟨p.1, [], p.2⟩ : Cell α)) with
+  | .error e => .error e
+  | .ok a => initialAllocation sqrt εA includeZero mods a.cells
+
 end FV.InitAlloc
